@@ -62,11 +62,12 @@ from .values import (
 
 
 class LoopSpec:
-    def __init__(self, invariants=(), decreases=None, shapes=None, modifies=(), unroll=False, abstract=False, steps=()):
+    def __init__(self, invariants=(), decreases=None, shapes=None, modifies=(), unroll=False, abstract=False, steps=(), peel=False):
         self.steps = list(steps)  # [(name, fn(E))] proved at the end of every iteration; E.head = state at the iteration's start
         self.abstract = abstract  # havoc the loop's write set and skip its body (body NOT verified; reported in the evidence)
         self.invariants = list(invariants)  # [(name, fn(E))]
         self.decreases = decreases  # fn(E) -> Int term, must decrease and stay >= 0
+        self.peel = peel  # verify the first iteration from the concrete entry state (variables that are None before the loop and objects afterwards); the arbitrary iteration then has k >= 1
         self.shapes = dict(shapes or {})  # havoc shapes for variables whose shape cannot be inferred
         self.modifies = list(modifies)
         self.unroll = unroll
@@ -208,6 +209,16 @@ class ListView:
 
     def raw(self):
         return self._l
+
+    @property
+    def id(self):
+        """a literal list of numbers used where a contract expects an abstract field (e.g. [[0, 0]]): its identity is a constant derived from its content"""
+        v = self._l.v
+        if isinstance(v, list):
+            import zlib
+
+            return z3.IntVal(-1 - zlib.crc32(repr(self._l.v if not isinstance(self._l.v, list) else [getattr(x, "v", x) for x in self._l.v]).encode()))
+        return self.key
 
     @property
     def key(self):
@@ -1145,6 +1156,41 @@ class Exec:
             except VCError:
                 pass
         self._check_inv(s0, spec, ordinal, "init", line, pre)
+        if spec.peel:
+            # 1b. the first iteration, executed from the entry state itself: either the loop is not entered (exit path), or the body runs once and must
+            # re-establish the invariant with k = 1; the arbitrary iteration below then starts from k >= 1
+            s_skip, s_first = s0.clone(), s0.clone()
+            if it is not None:
+                n0_ = to_z3(it.length)
+                s_skip.pc.append(n0_ == 0)
+                s_first.pc.append(n0_ > 0)
+                bind_target(s_first, 0, True)
+            else:
+                c_sk = self.truth(self.eval(stmt.test, s_skip, mod), s_skip, stmt.test)
+                s_skip.pc.append(z3.Not(c_sk) if not isinstance(c_sk, bool) else z3.BoolVal(not c_sk))
+                c_fi = self.truth(self.eval(stmt.test, s_first, mod), s_first, stmt.test)
+                s_first.pc.append(c_fi if not isinstance(c_fi, bool) else z3.BoolVal(c_fi))
+            if self.feasible(s_skip.pc):
+                s_skip.trace.append(f"{line}X0")
+                if stmt.orelse:
+                    outs.extend(self.exec_block(stmt.orelse, s_skip, mod))
+                else:
+                    outs.append(("next", s_skip, None))
+            if self.feasible(s_first.pc):
+                s_first.trace.append(f"{line}B0")
+                for kind, s2, payload in self.exec_block(stmt.body, s_first, mod):
+                    if kind in ("next", "continue"):
+                        s2.env[kname] = 1
+                        if it is not None:
+                            try:
+                                bind_target(s2, 1, False)
+                            except VCError:
+                                pass
+                        self._check_inv(s2, spec, ordinal, "after-first-iteration", line, pre)
+                    elif kind == "break":
+                        outs.append(("next", s2, None))
+                    else:
+                        outs.append((kind, s2, payload))
         # 2. arbitrary iteration: havoc, assume invariant
         sh = s0.clone()
         extra_names = set()
@@ -1155,7 +1201,7 @@ class Exec:
             k = z3.Int(uid(kname))
             sh.env[kname] = k
             n = it.length
-            sh.pc.append(k >= 0)
+            sh.pc.append(k >= (1 if spec.peel else 0))
             sh.pc.append(k <= to_z3(n))
             # re-evaluate the iterable getter against the havocked state?  The iterable was evaluated
             # before the loop (Python semantics: iter() once); lists mutated in the body are out of scope.
@@ -1166,7 +1212,7 @@ class Exec:
         else:
             k = z3.Int(uid(kname))
             sh.env[kname] = k
-            sh.pc.append(k >= 0)
+            sh.pc.append(k >= (1 if spec.peel else 0))
         self._assume_inv(sh, spec, pre)
         dec0 = None
         # 3a. exit path
@@ -1830,6 +1876,11 @@ class Exec:
             return o.val(k)
         if isinstance(o, UFun) and "getitem" in o.attrs:
             return o.attrs["getitem"](idx)
+        if isinstance(o, Opaque) and o.kind == "field" and "len" in o.attrs:
+            # element of an abstract candidate field: an abstract point (in range is a safety obligation)
+            n = o.attrs["len"]
+            self.norm_index(idx, n, st, node)
+            return Opaque("point", {"of": o.attrs.get("id"), "i": idx})
         if isinstance(o, Opaque) and o.kind == "json":
             return Opaque("json", {})
         raise Unsupported(f"subscript of {type(o).__name__}")
@@ -2103,6 +2154,15 @@ class Exec:
 
     def call_closure(self, f: Closure, args, kwargs, st, node):
         fnode = f.node
+        if isinstance(fnode, ast.FunctionDef):
+            # a nested def may carry a sidecar contract named "<enclosing qual>.<locals>.<name>" (then it is called by contract, like any other callee)
+            nested = f"{self.fn_stack[-1][0]}.<locals>.{fnode.name}"
+            variants = [c for c in self.reg.contracts.values() if c.qual == nested]
+            if variants:
+                env0 = self.bind_args(fnode, args, kwargs, st, f.module, skip_missing=True)
+                for c in variants:
+                    if c.applies is None or c.applies(env0):
+                        return self.call_by_contract(c, fnode, f.module, args, kwargs, st, node)
         local = self.bind_args(fnode, args, kwargs, st, f.module)
         env = _ChainEnv(local, f.env)
         if isinstance(fnode, ast.Lambda):
